@@ -23,6 +23,9 @@
 (* decimal digits of any script" (isdigit()+int()): EXPECTED TO BE REJECTED *)
 (* - identifiers spelt with non-ASCII digits are renamed to ASCII and may   *)
 (* merge into a range with real identifiers.                                *)
+(* Variant "fastpath" is keepwidth with a shortcut for ONE identifier that  *)
+(* returns the str layout whatever the format and never raises: EXPECTED TO  *)
+(* BE REJECTED (OutputFormIsList, MustReject).                               *)
 (* In the model the exact footer test accepts the non-empty ASCII digit     *)
 (* strings; signs, blanks, letters, other scripts' digits are rejected.     *)
 (***************************************************************************)
@@ -33,7 +36,7 @@ CONSTANTS Heads,      \* texts up to and including the delimiter (<<>> = no deli
           Widths,     \* printed widths: w means "%0wd" (1 = natural)
           Extra,      \* further raw identifier texts (e.g. non-integer suffixes)
           MaxIds,
-          Variant     \* "pad4" | "keepwidth" | "isdigit"
+          Variant     \* "pad4" | "keepwidth" | "isdigit" | "fastpath"
 
 DELIM == 95
 Universe == {hd \o Pad(n, w) : hd \in Heads, n \in Numbers, w \in Widths} \cup Extra
@@ -100,7 +103,9 @@ Add(id) == /\ Len(ids) < MaxIds
 Call(form) ==                 \* may follow a call in the other form on the same collection
    /\ out = Idle \/ out.form # form
    /\ LET r == Compress(Variant, ids) IN
-        out' = [form |-> form, raised |-> r.raised,
+        out' = IF Variant = "fastpath" /\ Len(ids) = 1
+               THEN [form |-> form, raised |-> "", kind |-> "text", payload |-> RenderStr(<<ids[1]>>)]
+               ELSE [form |-> form, raised |-> r.raised,
                 kind |-> IF form = "str" \/ r.raised # "" \/ r.entries = <<>> THEN "text" ELSE "elems",
                 payload |-> IF r.raised # "" THEN <<>>
                             ELSE IF form = "str" THEN RenderStr(r.entries)
@@ -111,12 +116,14 @@ Next == (\E id \in Universe : Add(id)) \/ Call("str") \/ Call("list")
 Spec == Init /\ [][Next]_vars
 
 \* ---- the property ----------------------------------------------------------
-Verdict == IF out = Idle THEN {} ELSE Judge(ids, ids, DELIM, out.raised, out.kind, out.payload)
+Verdict == IF out = Idle THEN {} ELSE Judge(ids, ids, DELIM, out.raised, out.form, out.kind, out.payload)
 Faithful == Verdict = {}
 NoSpuriousReject == "Raises" \notin Verdict
 LayoutOK == "WellFormed" \notin Verdict
 NoneLostInv == "NoneLost" \notin Verdict
 NoneAddedInv == "NoneAdded" \notin Verdict
+OutputFormInv == {"OutputFormIsList", "OutputFormIsString"} \cap Verdict = {}
+MustRejectInv == "MustReject" \notin Verdict
 \* the two forms carry the same entries
 FormsAgree == (out # Idle /\ out.raised = "" /\ out.form = "str") =>
                  LET r == Compress(Variant, ids) IN StrEntries(out.payload) = r.entries
